@@ -15,7 +15,7 @@ ALPHABET = ["C", "N", "O", "*", "H", ""]
 
 META = dict(
     bounds=dict(
-        quick="exact analysis: all graphs (connected and disconnected) on <=4 nodes, element in {C,N}, charge in {0,1}, "
+        quick="exact analysis: all graphs (connected and disconnected) on <=4 nodes, element in {C,N}, charge in {0,1} (and {-2,-1}, the pair of small integers whose hash() values collide, on 2-3 atoms), "
               "bond order in {1,2}, all symbolic; fast estimate (AutoEst): all graphs on <=4 nodes with <=4 bonds (labels "
               "are hashed there, so enumerated); de-duplication: all lists of <=3 injective matches of a 3-node pattern "
               "into 3 host nodes under solver-chosen orbit partitions, anchors and host orbits; pruning inside rule application: k=2 and k=3 (carbon-only) centre templates on substrates <=3 atoms and the [2+2] family, pruned result set against gluing every raw match",
@@ -71,10 +71,10 @@ def true_orbit_formulas(g):
     return sig, same
 
 
-def h_exact(E, n, edges):
+def h_exact(E, n, edges, charges=(0, 1)):
     from synkit.Graph.Matcher.automorphism import Automorphism
 
-    g, _ = sym_mol(E, "g", n, [tuple(e) for e in edges], elements=("C", "N"), hcounts=(0,), charges=(0, 1), orders=(1, 2))
+    g, _ = sym_mol(E, "g", n, [tuple(e) for e in edges], elements=("C", "N"), hcounts=(0,), charges=tuple(charges), orders=(1, 2))
     a = Automorphism(g)
     n_aut = a.n_automorphisms
     orbits = [frozenset(o) for o in a.orbits]
@@ -151,6 +151,11 @@ def h_dedup(E, k, with_host):
         horb = [frozenset(h for h, b in zip(H, hb) if b == x) for x in sorted(set(hb))]
     use_p = bool(E.bool("use_pattern_orbits"))
     kw = dict(pattern_orbits=porb if use_p else None, pattern_anchor=anchor if use_p else None, host_orbits=horb)
+    if with_host:
+        # the documented (inert) host_anchor argument: nothing or one host node (an anchor component need not be a union of orbits)
+        hai = int(E.int("hanchor", -1, 2))
+        if hai >= 0:
+            kw["host_anchor"] = frozenset([H[hai]])
     out = dd(matches, **kw)
     info = dict(matches=[sorted(m.items()) for m in matches], kw={a: ([sorted(o) for o in b] if isinstance(b, list) else
                                                                      (sorted(b) if b is not None else None)) for a, b in kw.items()},
@@ -219,6 +224,11 @@ def shards(tier, seed):
         sh.append(dict(h="exact", params=dict(n=n, edges=es)))
         if len(es) <= 4:
             sh.append(dict(h="est", params=dict(n=n, edges=es)))
+    # charges -1 / -2: the one pair of small integers with equal hash() in CPython - labels that differ but collide in
+    # any hash-based comparison
+    for n, es in shapes:
+        if n in (2, 3) and es:
+            sh.append(dict(h="exact", params=dict(n=n, edges=es, charges=[-2, -1])))
     if tier == "thorough":
         for es in all_shapes(5, max_edges=5):
             sh.append(dict(h="exact", params=dict(n=5, edges=es)))
